@@ -41,7 +41,8 @@ var wildDomains = []string{"google.*", "example.*", "a.*", "kobe.*", "github.*",
 var wildSuffixes = []string{"com", "co.uk", "local", "github.io", "org", "kobe.jp", "x.kobe.jp", "net", "ck", "www.ck", "blogspot.com", "de"}
 var ctagVocab = []string{"phone", "pc", "user_child", "a", "b", "zz", "device_tv", "0"}
 var clientNames = []string{"Frank's laptop", "Kids", "a|b", "x, y", "dead.beef", "abc", "10.0.0.0/8x", "My \"PC\"", "pc", "PC", "kids", "::g", "1.2.3.4.5", "a b", "it's \"q\"", "alice", "Bob", "Zed", "carol",
-	"Müller", "Фрэнк", "子供のPC"} // client names are free text in any script
+	"Müller", "Фрэнк", "子供のPC", // client names are free text in any script
+	"Kids ", " guest laptop", "\ttabbed"} // ... with blanks at their edges, too (always written in quotes)
 var clientIPs = []string{"1.2.3.4", "1.2.3.5", "10.0.0.1", "10.255.255.255", "11.0.0.0", "192.168.1.1", "192.168.1.255", "192.168.2.1",
 	"::1", "fe01::1", "fe01:0:0:1::1", "2001:db8::1", "2001:db9::1", "0.0.0.0", "255.255.255.255", "::",
 	"::ffff:1.2.3.4", "::ffff:192.168.1.1"} // IPv4-mapped: an address equals itself, whatever its form
@@ -322,7 +323,7 @@ func encClient(t *rapid.T, c Cli) string {
 		return c.Val
 	}
 	v := c.Val
-	needQuote := strings.ContainsAny(v, " '\"") || chance(t, "quote", 3)
+	needQuote := strings.ContainsAny(v, " \t'\"") || chance(t, "quote", 3)
 	v = strings.ReplaceAll(v, ",", "\\,")
 	v = strings.ReplaceAll(v, "|", "\\|")
 	if needQuote {
